@@ -209,7 +209,7 @@ def main(argv):
         rng0 = vsim.Rng(seed, "c08-programs")
         rng0.shuffle(cs)
         cands = [("hello.as", worlds.HELLO, "corpus")]
-        for n, pth, sz in cs[:nprog * 2]:
+        for n, pth, sz in cs[:nprog * 5]:
             cands.append((n, open(pth, "rb").read(), "corpus"))
         for g in range(ngen):
             src = progen.gen_program(vsim.Rng(seed, "c08-gen", g), size="small", force=("tokens",) if g % 2 == 0 else ())
@@ -221,6 +221,16 @@ def main(argv):
         progs = []
         dropped = []
         ncorpus = 0
+        # "identical diagnostics" is a clause of its own: half of the corpus slots go to the
+        # candidates whose reference run printed the most messages (several messages at one
+        # source position, long message lists), the rest in shuffled order
+        ndiag = [len(re.findall(rb"\((?:Warning|Error|Remark|Note)\)", r.out + r.err)) for r in refs]
+        order = list(range(len(work)))
+        corp = [i for i in order if work[i][2] == "corpus"]
+        talk = sorted(corp, key=lambda i: -ndiag[i])[:nprog // 2]
+        order = [i for i in order if work[i][2] != "corpus"] + talk + [i for i in corp if i not in talk]
+        work = [work[i] for i in order]
+        refs = [refs[i] for i in order]
         for w_, ref in zip(work, refs):
             # validated per run: keep what the current tree compiles in the reference configuration
             # ... and what it compiles within modest resources: a reference run that ends at
